@@ -1,4 +1,5 @@
 import GitSizer.Model.ScanProto
+import GitSizer.Proofs.Pipeline2
 import GitSizer.Gen.Flows
 import GitSizer.Gen.Cmds
 /-! # C10 — All-or-nothing reporting under faults
@@ -213,6 +214,74 @@ theorem config_values_must_parse :
     ((cfgFlow "Repository.ConfigBoolDefault" ++ cfgFlow "Repository.ConfigIntDefault").filter
         (fun e => e.2.2.any (fun c => c == ("i3", "t")))).map (·.1) = ["return-err", "return-err"] := by
   decide +kernel
+
+
+/-! ## it terminates: the protocol of a scanning phase cannot hang (`Model/Pipeline`)
+
+A step-level model of what can block in one phase — the feeder goroutine, the five pipeline stages
+with bounded OS pipes and unbuffered Go channels, the two git processes that may die at ANY moment,
+stages that may reject any line, and the scanning goroutine's `Next()` loop, `Wait()` and
+`<-errChan` — for every number of roots and of listed objects and every pipe capacity. What the
+model takes from the runtime (a stage that ends closes both of its ends; EPIPE; EOF) is stated in
+`Model/Pipeline`; the order of the scanning goroutine's own operations is the regenerated one
+(`feeders_awaited_after_draining`, `scan_errors_consulted`, `Pins.Src.ObjIter`). Not modelled: time,
+the scheduler's fairness beyond "an enabled step is eventually taken", signals to git-sizer itself. -/
+
+open GitSizer.Pipeline in
+/-- **no deadlock**: in every reachable state in which the scanning goroutine has not returned, a step
+    of the program itself is enabled (a process dying is not counted as progress) -/
+theorem scan_phase_no_deadlock (roots : Option Nat) (lines ca cb cc cd : Nat) (ha : 0 < ca) (hb : 0 < cb) (hc : 0 < cc) (hd : 0 < cd)
+    (s : St) (hr : Reach (init roots lines ca cb cc cd false) s) (hm : s.main ≠ .done) : ∃ s', Step s s' :=
+  progress (inv_reach (inv_init roots lines ca cb cc cd ha hb hc hd) hr) hm
+
+open GitSizer.Pipeline in
+/-- **it returns on every run**: from every reachable state, whatever the processes and the environment
+    do next, the scanning goroutine returns after finitely many steps (each step lowers `mu`) -/
+theorem scan_phase_returns (roots : Option Nat) (lines ca cb cc cd : Nat) (ha : 0 < ca) (hb : 0 < cb) (hc : 0 < cc) (hd : 0 < cd)
+    (s : St) (hr : Reach (init roots lines ca cb cc cd false) s) : Returns s :=
+  returns_of_inv (mu s) s (Nat.le_refl _) (inv_reach (inv_init roots lines ca cb cc cd ha hb hc hd) hr)
+
+open GitSizer.Pipeline in
+/-- every step — the program's or the environment's — lowers the measure: no run is infinite -/
+theorem scan_phase_steps_decrease (s s' : St) (h : Step s s' ∨ Env s s') : mu s' < mu s := by
+  rcases h with h | h
+  · exact step_decreases h
+  · exact env_decreases h
+
+open GitSizer.Pipeline in
+/-- **the order matters** (seeded change C10h): if the scanning goroutine waited for the feeder's report
+    BEFORE draining the pipeline, two roots and a `rev-list` that dies before reading would leave a
+    reachable state in which it has not returned and NOTHING can move -/
+theorem feeder_first_deadlocks (lines : Nat) :
+    ∃ s, Reach (init (some 1) lines 1 1 1 1 true) s ∧ s.main ≠ .done ∧ (∀ s', ¬ Step s s') ∧ (∀ s', ¬ Env s s') :=
+  ⟨stuck lines, variant_reaches_stuck lines, stuck_is_stuck lines⟩
+
+open GitSizer.Pipeline in
+/-- non-vacuity: a fault-free run (one root, one listed object, pipes of capacity 1) reaches the end with no error -/
+example : ∃ s, Reach (init (some 0) 1 1 1 1 1 false) s ∧ s.main = .done ∧ s.err = false := by
+  have r0 : Reach (init (some 0) 1 1 1 1 1 false) (init (some 0) 1 1 1 1 1 false) := Reach.refl
+  have r1 := Reach.step r0 (Step.feedLast _ rfl rfl rfl)
+  have r2 := Reach.step r1 (Step.s1Write _ rfl rfl (by decide))
+  have r3 := Reach.step r2 (Step.feederClose _ rfl)
+  have r4 := Reach.step r3 (Step.s1End _ rfl rfl)
+  have r5 := Reach.step r4 (Step.g1Read _ rfl (by decide))
+  have r6 := Reach.step r5 (Step.g1Eof _ rfl rfl rfl)
+  have r7 := Reach.step r6 (Step.g1Write _ 0 rfl rfl (by decide))
+  have r8 := Reach.step r7 (Step.g1Exit _ rfl)
+  have r9 := Reach.step r8 (Step.s3Read _ rfl (by decide))
+  have r10 := Reach.step r9 (Step.s3Write _ rfl rfl (by decide))
+  have r11 := Reach.step r10 (Step.s3Eof _ rfl rfl rfl)
+  have r12 := Reach.step r11 (Step.g2Read _ rfl (by decide))
+  have r13 := Reach.step r12 (Step.g2Write _ rfl rfl (by decide))
+  have r14 := Reach.step r13 (Step.g2Eof _ rfl rfl rfl)
+  have r15 := Reach.step r14 (Step.s5Read _ rfl (by decide))
+  have r16 := Reach.step r15 (Step.mainRecv _ rfl rfl)
+  have r17 := Reach.step r16 (Step.s5Eof _ rfl rfl rfl)
+  have r18 := Reach.step r17 (Step.mainClosed _ rfl rfl)
+  have r19 := Reach.step r18 (Step.feederReport _ rfl)
+  have r20 := Reach.step r19 (Step.mainWaitOk _ rfl rfl rfl rfl rfl rfl rfl)
+  have r21 := Reach.step r20 (Step.mainErrchan _ rfl (by decide))
+  exact ⟨_, r21, rfl, rfl⟩
 
 
 end GitSizer.C10
